@@ -12,7 +12,8 @@ P: generated valid modules (nasty identifier pool), modules with injected semant
    Repaired findings F80 (hyphenated C++ keywords), F43 (negative DEFAULT), F82 (empty range), F86 (enumeration item named like a
    generated symbol), F88 (NULL as actual type parameter), F33 (directly nested constrained OF types), F44 (inline unsigned-long
    element of SEQUENCE OF / SET OF), F27 (built-in &Type in an object set), F85 (value range on a restricted string), F74
-   (-fno-constraints member constraint records), F63 (type defined through itself without a tag) have no skip region:
+   (-fno-constraints member constraint records), F63 (type defined through itself without a tag), F12 (exact file set without
+   string types links), F120 (SEQUENCE { ... }) have no skip region:
    their former witnesses and neighbours run as directed modules with an expected outcome (built / rejected)."""
 import os, re, json, shutil, collections, itertools
 from .. import build, core, genmod, bundle, cgen, trans_reswords, c10_compile
@@ -31,12 +32,6 @@ OPTSETS = [
 ]
 
 PROPOSED_FINDINGS = [
- {"id": "F12", "property": "C10", "status": "known",
-  "what": "default options on a module without string types: the emitted file set lacks OCTET_STRING_oer.c / BIT_STRING_oer.c "
-          "although the copied OCTET_STRING.c / BIT_STRING.c reference OCTET_STRING_decode_oer etc.: the exact emitted set does not link",
-  "witness": {"module": "M DEFINITIONS AUTOMATIC TAGS ::= BEGIN T ::= SEQUENCE { a INTEGER, b BOOLEAN } END", "opts": [],
-              "c_output": "undefined reference to `OCTET_STRING_decode_oer'"},
-  "matcher": "link of exactly the emitted files fails and every undefined symbol is (OCTET|BIT)_STRING_(de|en)code_oer; OER support generated"},
  {"id": "F81", "property": "C10", "status": "known",
   "what": "a type reference whose C name equals a skeleton typedef (INTEGER-t -> 'typedef struct INTEGER_t {...} INTEGER_t_t' next to the skeleton's 'typedef ... INTEGER_t') is accepted (exit 0); "
           "legal C (struct tags have their own name space) but the emitted header is rejected by g++ (using typedef-name after struct)",
@@ -317,6 +312,9 @@ def directed_modules():
       "  U ::= SEQUENCE { e ENUMERATED { print, x, t }, i INTEGER { constraint(1), free(2) }, b BIT STRING { free(0), t(1) } }\n"
       "  I ::= INTEGER { t(1), free(2), other(3) }\n  B ::= BIT STRING { free(0), t(1), print(2) }\n"
       "  C ::= CHOICE { free NULL, t INTEGER, print BOOLEAN, nothing NULL, pr NULL }\nEND\n", "built"),
+     ("F12-witness", "M DEFINITIONS AUTOMATIC TAGS ::= BEGIN\n  T ::= SEQUENCE { a INTEGER, b BOOLEAN }\nEND\n", "built"),
+     ("F12-no-octet-string-user", "M DEFINITIONS AUTOMATIC TAGS ::= BEGIN\n  T ::= CHOICE { a NULL, b BOOLEAN }\n  U ::= SEQUENCE OF INTEGER (0..7)\n  V ::= ENUMERATED { x, y }\nEND\n", "built"),
+     ("F120-witness", "M DEFINITIONS AUTOMATIC TAGS ::= BEGIN\n  A ::= SEQUENCE { ... }\n  B ::= SEQUENCE { a A, b SEQUENCE { ... } OPTIONAL, ... }\nEND\n", "built"),
      ("F82-witness", "M DEFINITIONS AUTOMATIC TAGS ::= BEGIN\n  T ::= INTEGER (5..1)\nEND\n", "rejected"),
      ("F82-size", "M DEFINITIONS AUTOMATIC TAGS ::= BEGIN\n  T ::= OCTET STRING (SIZE(4..2))\nEND\n", "rejected"),
      ("F82-member", "M DEFINITIONS AUTOMATIC TAGS ::= BEGIN\n  T ::= SEQUENCE { a INTEGER (10..-10), b BOOLEAN }\nEND\n", "rejected"),
@@ -409,12 +407,7 @@ def classify(res):
         out.append(("compile", None, f + ": " + msg))    # every compile error counts (former findings F44, F74, F85, F27)
     if out: return out
     if res.get("link_error"):
-        und = res["link_error"]
-        syms = und.replace("undefined: ", "").split()
-        if und.startswith("undefined: ") and syms and all(re.fullmatch(r"(OCTET|BIT)_STRING_(de|en)code_oer", s) for s in syms) \
-           and "-no-gen-OER" not in res["opts"]:
-            out.append(("link-exact-set", "F12", und))
-        else: out.append(("link-exact-set", None, und))
+        out.append(("link-exact-set", None, res["link_error"]))        # F12 repaired: the exact emitted set links
     for h, msg in res.get("cxx_errors") or []:
         if "typedef-name" in msg and {n for n in type_names_of(text) if cgen.c_ident(n) in skel_typedef_names()}: out.append(("c++-header", "F81", h + ": " + msg))
         else: out.append(("c++-header", None, h + ": " + msg))
